@@ -1,9 +1,12 @@
 #!/bin/bash
-# Serialised Coq build of the given make targets (relative to /verif/coq), e.g.
+# Coq build of the given make targets (relative to /verif/coq), e.g.
 #   tools/build.sh theories/Choice.vo props/C04.vo
-# Regenerates gen/ from /repo and the Makefile first. Never use -vos/-vok.
-set -e
+# Regenerates gen/ from /repo and the Makefile under a short global lock, then runs make under a lock
+# that is specific to the requested targets (so that people building different files do not wait for
+# each other). Never use -vos/-vok.
 cd "$(dirname "$0")/.."
-python3 tools/translate.py >/dev/null || echo "translate failed" >&2
+mkdir -p /verif/.build.lock.d
+flock /verif/.build.lock bash -c 'python3 tools/translate.py >/dev/null 2>&1 || echo "translate failed" >&2; cd coq; coq_makefile -f _CoqProject -o Makefile $(ls gen/*.v theories/*.v props/*.v) >/dev/null 2>&1'
 cd coq
-exec flock /verif/.build.lock bash -c 'coq_makefile -f _CoqProject -o Makefile $(ls gen/*.v theories/*.v props/*.v) >/dev/null 2>&1; timeout 1500 make -j8 "$@"' _ "$@"
+key=$(echo "$@" | tr -c 'A-Za-z0-9_.\n' '_' | cut -c1-120)
+exec flock "/verif/.build.lock.d/$key" timeout 1500 make -j8 "$@"
